@@ -134,6 +134,25 @@ def stroke_dist(contours, x, y):
     return edge_dist(contours, x, y, implicit_close=False)
 
 
+def strip_inside(contours, x, y, half):
+    """is (x, y) inside the rectangle of half-width `half` swept along some drawn segment, i.e. does a perpendicular
+    foot fall within a segment at a distance below `half`?  (True does not depend on caps or joins.)"""
+    for pts, closed in contours:
+        n = len(pts)
+        last = n if closed else n - 1
+        for i in range(last):
+            ax, ay = pts[i]
+            bx, by = pts[(i + 1) % n]
+            dx, dy = bx - ax, by - ay
+            l2 = dx * dx + dy * dy
+            if l2 == 0:
+                continue
+            t = ((x - ax) * dx + (y - ay) * dy) / l2
+            if 0.0 <= t <= 1.0 and math.hypot(x - (ax + t * dx), y - (ay + t * dy)) < half:
+                return True
+    return False
+
+
 def bbox(contours):
     xs = [p[0] for pts, _ in contours for p in pts]
     ys = [p[1] for pts, _ in contours for p in pts]
